@@ -32,8 +32,17 @@ impl ChunkMerger {
             return Err(Error::InvalidSchema("No data to merge".into()));
         }
 
-        // Concatenate all batches
+        // Concatenate all batches. concat_batches trusts the caller that every batch has the
+        // given schema: with a different one it silently drops the columns it does not know,
+        // or panics on the ones it misses, so chunks of different schemas are not merged.
         let schema = batches[0].schema();
+        if let Some(other) = batches.iter().find(|b| b.schema() != schema) {
+            return Err(Error::InvalidSchema(format!(
+                "Cannot merge chunks with different schemas: {:?} vs {:?}",
+                schema.fields().iter().map(|f| f.name()).collect::<Vec<_>>(),
+                other.schema().fields().iter().map(|f| f.name()).collect::<Vec<_>>(),
+            )));
+        }
         let merged = concat_batches(&schema, &batches)?;
 
         Ok(merged)
